@@ -22,8 +22,6 @@ CLAIMS = {
  "C05": dict(tech=EFF, ref="DESIGN.md §8 C05",
   text="Kernel of C05: (1) counter exactness for all 64-bit values: requireCPU/RequireCPU return normally only if the saturating sum stays below a non-zero limit, otherwise the context is marked killed and a ContextTerminationError is raised with the counter unchanged; TerminateContext/KillContext raise exactly when live. (2) Non-interception: every recover() in the runtime and library packages either re-panics any value that is not nil / not of another concrete type (path-sensitive check on go/ssa), or protects a function from which no ContextTerminationError can be raised (call-graph proof), except the three declared boundaries (CallContext, Runtime.Close, Thread.Start). (3) After a function marks the current context not-live (which disables the limit checks) nothing that can run Lua code follows in it. Metering of individual loops and the 'no further Lua code runs after a kill inside pcall' clause are not decided by this check.",
   note="Trusted: call-graph resolution (static calls, module interface dispatch by method sets, function values by signature); the three boundary functions are declared, not verified; wall-clock bounds per tick are out of reach."),
-}
-
  "C16": dict(tech=SMT + "; the two halves of the for instruction are extracted byte-for-byte from LuaCont.RunInThread on every run (fragments)", ref="DESIGN.md §8 C16",
   text="Step contracts of the numeric for loop, for all int64/float64 operands: forprep (the else branch of the for opcode, extracted verbatim from LuaCont.RunInThread) returns an error exactly when an operand is not a number or the step is zero, makes the loop an integer loop exactly when start and step are integers (otherwise converts the other to float), leaves the limit as is, and sets the control register to nil exactly when NOT (start <= limit) resp. NOT (limit <= start) in the exact mixed order of C02 (so NaN start/limit give an empty loop); foradv writes start+step, or nil exactly when the exact sum passes the limit or the 64-bit addition overflows - never a wrapped value. astcomp.ProcessForStat is proved to hand the same three private registers (obtained from GetFreeRegister) to both instructions and to give the body a separate register for the loop variable. The composition of the step contracts into whole-loop termination, and the compiler below ProcessForStat, are not machine-checked.",
   note="Trusted: fragment wrappers (generated; region text identical to the source, returns rewritten mechanically), spec functions (exact order, addOverflows), amd64 float-to-int conversion semantics, ghost predicate fromGetFreeRegister defined by the assumed contract of ir.GetFreeRegister, setReg treated as external with its arguments asserted, string operands excluded by precondition (ToNumberValue's string path goes through strconv)."),
